@@ -31,6 +31,15 @@ OBLIGATION_ERRORS = (
     "constructed value may fail to meet its declared type invariant",
     "not all errors may have been reported",  # note, filtered below
 )
+# Verus' built-in safety obligations.  For a unit whose property says nothing about panics or arithmetic (its template
+# lists them in `//@ side_obligations ...`) a failure of one of these is NOT a violation of the property: the unit
+# becomes undecided and only a concrete failing input found by the replay search can turn it into a violation.
+SIDE_KINDS = {
+    "overflow": ("possible arithmetic underflow/overflow", "possible bit shift underflow/overflow"),
+    "division": ("possible division by zero",),
+    "index": ("index out of bounds",),
+    "termination": ("could not prove termination", "decreases not satisfied"),
+}
 UNDECIDED_MARKERS = ("Resource limit (rlimit) exceeded", "rlimit exceeded", "timed out", "out of memory")
 
 
@@ -53,6 +62,7 @@ class UnitResult:
         self.trusted = []
         self.out_path = ""
         self.lost_fns = []
+        self.side_failed = []
 
 
 def scan_trusted(text):
@@ -171,6 +181,13 @@ def run_unit(unit, template, out_dir, rlimit=30, seed=None, canary=False, mutate
         return res
     real = []
     limited = False
+    side_msgs = tuple(m for k in b.get("side_obligations", []) for m in SIDE_KINDS.get(k, ()))
+    side_failed = []
+    for e in errs:
+        if side_msgs and any(e["msg"].startswith(m) for m in side_msgs):
+            side_failed.append(e)
+    errs = [e for e in errs if e not in side_failed]
+    res.side_failed = [f"{e['fn']}: {e['msg']} [{' '.join((e['label'] or e['text']).split())[:80]}]" for e in side_failed]
     for e in errs:
         if any(mk in e["msg"] for mk in UNDECIDED_MARKERS):
             limited = True      # this query ran out of resources: says nothing about the obligation
@@ -195,6 +212,10 @@ def run_unit(unit, template, out_dir, rlimit=30, seed=None, canary=False, mutate
     if limited and not res.failed:
         res.status = "undecided"
         res.reason = "solver resource limit"
+        return res
+    if side_failed and not res.failed:
+        res.status = "undecided"
+        res.reason = "side obligation (not part of the property) no longer proved: " + "; ".join(res.side_failed[:3])
         return res
     if res.errors > 0 and not res.failed:
         res.status = "undecided"
